@@ -2,7 +2,7 @@
    a computable cost is a sample of the axis lying inside the pixel's own [gmin, gmax] (hence inside
    the global interval).  Composition of the C03 theorems (Proofs/WtaP.v) with [mvolume_cell]. *)
 From Coq Require Import ZArith List Bool Lia ZifyBool QArith.
-From Pandora Require Import Lib.Ext Lib.Blocks Model.MatchingCost Model.Interval Proofs.MatchingCostP
+From Pandora Require Import Lib.Ext Lib.Blocks Model.MatchingCost Model.Interval Spec.Interval Proofs.MatchingCostP
                             Proofs.IntervalP.
 From Pandora Require Model.Wta Spec.Wta Proofs.WtaP.
 Import ListNotations.
@@ -189,4 +189,31 @@ Proof.
   pose proof (T1 (Z.to_nat kJ) (Fin (val vJ)) CI LJI) as P1.
   pose proof (T2 (Z.to_nat (kI + sh)) (Fin (val vI)) CW LIJ) as P2.
   lia.
+Qed.
+
+(* ------------------------------------------------------------------ the last clause: invariant and composition *)
+
+(* any number of ARBITRARY steps, each preserving "valid pixels lie in [dmin, dmax]", preserve it *)
+Lemma steps_preserve_interval :
+  forall (steps : list (dstate -> dstate)) ny nx dmin dmax st0,
+    Forall (fun f => forall st, in_global_interval ny nx dmin dmax st -> in_global_interval ny nx dmin dmax (f st)) steps ->
+    in_global_interval ny nx dmin dmax st0 ->
+    in_global_interval ny nx dmin dmax (fold_left (fun st f => f st) steps st0).
+Proof.
+  intros steps ny nx dmin dmax. induction steps as [|f steps IH]; intros st0 HF H0; cbn [fold_left]; [exact H0|].
+  inversion HF; subst. apply IH; [assumption|]. auto.
+Qed.
+
+(* base case: the state produced by WTA on the matching-cost volume *)
+Lemma wta_state_in_global_interval : forall val m inp dmin dmax mx B invalid conf mask,
+  1 <= B -> 0 < i_s inp -> dmin <= dmax ->
+  in_global_interval (i_ny inp) (i_nx inp) dmin dmax
+    (mkD (wta_on_volume val m inp dmin dmax mx B invalid conf mask) (has_cost m inp dmin dmax)).
+Proof.
+  intros val m inp dmin dmax mx B invalid conf mask HB Hs Hd r c Hr Hc Hv. cbn [d_valid d_map] in *.
+  unfold has_cost in Hv. apply existsb_exists in Hv. destruct Hv as [k0 [Hk0 Hv]]. rewrite zrange_In in Hk0.
+  destruct (mvolume m inp dmin dmax r c k0) as [v0|] eqn:E; [|discriminate].
+  destruct (wta_within_interval val m inp dmin dmax mx B invalid conf mask HB Hs Hd r c k0 v0 Hr Hc
+              ltac:(lia) E) as (k & v & _ & Ho & _ & _ & _ & [G1 G2] & _).
+  exists (sample_q (i_s inp) dmin k). auto.
 Qed.
